@@ -7,7 +7,7 @@ Prints one line per mutant: KILLED (check exit 1), SURVIVED (exit 0), or ERROR (
 """
 import glob, json, os, subprocess, sys
 V = os.path.dirname(os.path.dirname(os.path.abspath(__file__)))
-REPO = '/repo'
+REPO = os.environ.get('VERIF_REPO', '/repo')
 
 def clean():
     subprocess.run(['git', '-C', REPO, 'checkout', '--', '.'], check=True)
